@@ -98,10 +98,15 @@ DAbs(x) == IF DIsBad(x) THEN DBad
                               ELSE IF x[1][1] > 0 THEN x[2] ELSE RNeg(x[2])>>
 DSign(x) == IF DIsBad(x) THEN DBad
             ELSE <<RInt(RSgn(x[1])), IF x[1][1] = 0 /\ x[2] # RZero THEN Bad ELSE RZero>>
+\* An undefined tangent of the operand that is NOT selected makes the tangent undefined too: that operand is not
+\* differentiable (possibly not even real-valued, e.g. x^x for x < 0) in a neighbourhood of the point, so the point is
+\* not a point of differentiability of the program as a function of its arguments (conservative: never judged).
 DMin(x, y) == IF DIsBad(x) \/ DIsBad(y) THEN DBad
+              ELSE IF IsBad(x[2]) \/ IsBad(y[2]) THEN <<(IF RLt(y[1], x[1]) THEN y[1] ELSE x[1]), Bad>>
               ELSE IF RLt(x[1], y[1]) THEN x ELSE IF RLt(y[1], x[1]) THEN y
               ELSE <<x[1], IF x[2] = y[2] THEN x[2] ELSE Bad>>
 DMax(x, y) == IF DIsBad(x) \/ DIsBad(y) THEN DBad
+              ELSE IF IsBad(x[2]) \/ IsBad(y[2]) THEN <<(IF RLt(x[1], y[1]) THEN y[1] ELSE x[1]), Bad>>
               ELSE IF RLt(x[1], y[1]) THEN y ELSE IF RLt(y[1], x[1]) THEN x
               ELSE <<x[1], IF x[2] = y[2] THEN x[2] ELSE Bad>>
 KinkT(x, y) == IF x[2] = RZero /\ y[2] = RZero THEN RZero ELSE Bad
